@@ -51,6 +51,12 @@ def log(*a):
     print(*a, file=sys.stderr, flush=True)
 
 
+def tlog(t0, what):
+    """optional phase timing (VERIF_TIMING=1), stderr only"""
+    if os.environ.get("VERIF_TIMING"):
+        log("timing: %-28s at %.1fs" % (what, time.time() - t0))
+
+
 def sh(cmd, cwd=None, timeout=600, env=None):
     """run, return (rc, output); rc 124 on timeout"""
     try:
@@ -174,6 +180,16 @@ def audit_assumptions(pid, prop_file, workdir):
     txt = open(os.path.join(COQ, prop_file), errors="replace").read()
     names = [m.group(2) for m in STMT.finditer(txt) if m.group(1) == "Theorem"]
     mod = prop_file[:-2].replace("/", ".")
+    # fast path (additive): ONE dependency traversal for all theorems together.  A tuple of all the theorems depends on
+    # every axiom any of them depends on, so "Closed under the global context" for the tuple means closed for each one.
+    # Anything else (an axiom, an error) falls through to the per-theorem audit below, which attributes it.
+    if names and not os.environ.get("VERIF_AUDIT_SLOW"):
+        fast = os.path.join(workdir, "AuditAll_%s.v" % pid)
+        open(fast, "w").write("From V Require Import %s.\nDefinition audit_all := (%s).\nPrint Assumptions audit_all.\n"
+                              % (mod, ", ".join(names)))
+        frc, fout = sh(["coqc", "-Q", COQ, "V", fast], cwd=workdir, timeout=600)
+        if frc == 0 and "Closed under the global context" in fout and "Axioms:" not in fout:
+            return {n: [] for n in names}, fout
     src = ["From V Require Import %s." % mod]
     for n in names:
         src.append('Goal True. idtac "@@ %s". exact I. Qed.' % n)
@@ -272,7 +288,9 @@ def check(pid, tier):
         build_harness()
         if cfg.get("race"):
             build_harness(race=True)
+        tlog(t0, "harness built")
         regen(cfg.get("gen", []))
+        tlog(t0, "tables regenerated")
         # direct property tests + case emission (implementation side)
         hb = HARNESS_BIN
         cenv = None
@@ -286,6 +304,7 @@ def check(pid, tier):
                      timeout=cfg.get("corr_timeout", 1500 if tier == "quick" else 7200), env=cenv)
         if rc != 0:
             tool_error("harness corr failed for " + pid, out)
+        tlog(t0, "harness corr done")
         result = json.load(open(os.path.join(workdir, "result.json")))
         for k in ("failures", "shards", "samples", "notes"):
             result[k] = result.get(k) or []
@@ -298,6 +317,7 @@ def check(pid, tier):
         mrc, mout = coq_make(targets, timeout=cfg.get("make_timeout", 3000))
         open(os.path.join(workdir, "make.log"), "w").write(mout)
         bad_words = forbidden_scan()
+        tlog(t0, "proofs made")
 
     proof_ok = (mrc == 0) and not bad_words
     broken = []
@@ -325,6 +345,7 @@ def check(pid, tier):
                         broken.append({"file": prop_file, "line": 0,
                                        "error": "theorem %s depends on non-standard axiom %s" % (thm, a)})
 
+    tlog(t0, "assumptions audited")
     # thorough tier: independent re-check of the compiled property file and everything it depends on
     coqchk_report = None
     if tier == "thorough" and mrc == 0 and not cfg.get("no_coqchk"):
@@ -405,6 +426,7 @@ def check(pid, tier):
             notes.append("ADVISORY: extension theorems (not part of the property) no longer build: %s"
                          % ((em.group(1) + ":" + em.group(2) + " " + em.group(3).strip()[:300]) if em else eout[-300:]))
 
+    tlog(t0, "case shards evaluated")
     # ---- decide
     known, fixed = load_known(pid)
     fail_by_class = {}
